@@ -416,7 +416,8 @@ def case_make_phantoms(rep):
                             inp = {"styles": [sorted(p) for p in pat], "cards": cards_spec, "max_cards": max_cards, "use_style": use_style}
                             rep.case(inp, nontrivial=n > 0)
                             try:
-                                out, nph = CVR.make_phantoms(audit=audit, contests=cons, cvr_list=cvrs, prefix="ph-")
+                                # (the dict of contests is keyed by something other than the contest ids: only con.id identifies a contest on a card)
+                                out, nph = CVR.make_phantoms(audit=audit, contests={"key of " + k_: v_ for k_, v_ in cons.items()}, cvr_list=cvrs, prefix="ph-")
                             except Exception as ex:
                                 rep.fail("make_phantoms does not raise", inp, got=type(ex).__name__ + ": " + str(ex)[:80],
                                          known="K8" if (use_style and n == 0) else None)
